@@ -336,11 +336,19 @@ Proof.
     destruct (i_head _ Hi) as (Hc & Hch); [cbn; auto|]. cbn [p_cur p_changes] in Hc, Hch. subst cur chg.
     pose proof (i_first _ Hi eq_refl) as Hb. cbn [p_blocks] in Hb. subst bl.
     apply (Hpend _); [|constructor].
-    constructor; cbn; try (apply optP_none); try (now constructor); try (now left); auto.
+    constructor; cbn.
+    + apply optP_none.
+    + apply optP_none.
+    + apply optP_none.
     + apply optP_some. exact urg_ok_unknown.
     + split; [now left|reflexivity].
     + split; constructor.
+    + constructor.
+    + apply optP_none.
+    + apply optP_none.
+    + now left.
     + left. apply notrig_nil.
+    + auto.
   - injection Hfin as <-. unfold cl_of. cbn. pose proof (i_nhe _ Hi (or_introl eq_refl)) as Hne. cbn in Hne.
     constructor; cbn; [exact Hini|now apply blocks_okc_all|]. intros E. congruence.
   - destruct Hst as (Hbl & Hchg). destruct (i_chg _ Hi) as (Hok & (F1 & F2 & F3 & F4 & F5 & F6)); [cbn; auto|].
@@ -361,7 +369,8 @@ Proof.
     apply cur_blk_okc; [exact Hok|exact Hchg|apply optP_none|apply optP_none|now left|auto].
   - pose proof (i_slurp _ Hi eq_refl) as Ho. cbn [p_old] in Ho. subst o.
     injection Hfin as <-. unfold cl_of. cbn.
-    destruct Hst as (bs & bk & -> & Hbs & Kbk & _). now apply Hpend.
+    destruct Hst as (bs & bk & -> & Hbs & Kbk & _).
+    constructor; cbn; [exact Hini|now apply blocks_okc_snoc|]. destruct bs; discriminate.
 Qed.
 
 Theorem parsed_doc_okc s st :
